@@ -12,6 +12,7 @@ import (
 	"servitor/pub"
 	"servitor/splicer"
 	"strings"
+	"sync"
 	"time"
 )
 
@@ -43,9 +44,13 @@ func tagOf(t pub.Tangible) any {
 /* a synthetic pub.Container over a fixed item list, delivering exactly what is asked */
 type fakeContainer struct {
 	items []pub.Tangible
+	delay time.Duration // a source that takes a moment, so that concurrent askers overlap
 }
 
 func (c *fakeContainer) Harvest(quantity uint, startingAt uint) ([]pub.Tangible, pub.Container, uint) {
+	if c.delay > 0 {
+		time.Sleep(c.delay)
+	}
 	n := uint(len(c.items))
 	if startingAt >= n {
 		return []pub.Tangible{}, nil, 0
@@ -101,7 +106,7 @@ func init() {
 			if len(items) == 0 && I(op, "nilempty") == 1 {
 				pages = append(pages, nil)
 			} else {
-				pages = append(pages, &fakeContainer{items: items})
+				pages = append(pages, &fakeContainer{items: items, delay: time.Duration(I(op, "delay_us")) * time.Microsecond})
 			}
 		}
 		s := splicer.VerifNew(pages)
@@ -111,10 +116,44 @@ func init() {
 			step := raw.([]any)
 			q := uint(I(Op{"v": step[1]}, "v"))
 			st := uint(I(Op{"v": step[2]}, "v"))
-			items, next, _ := cont.Harvest(q, st)
-			tags := make([]any, len(items))
-			for i, it := range items {
-				tags[i] = tagOf(it)
+			var items []pub.Tangible
+			var next pub.Container
+			var tags []any
+			if step[0].(string) != "par" {
+				items, next, _ = cont.Harvest(q, st)
+				tags = make([]any, len(items))
+				for i, it := range items {
+					tags[i] = tagOf(it)
+				}
+			} else {
+				/* the same position asked by four callers at the same time, nobody having asked
+				   before: a container is a value, every asker gets the answer a lone asker gets */
+				var wg sync.WaitGroup
+				results := make([]string, 4)
+				var first sync.Once
+				for g := 0; g < 4; g++ {
+					g := g
+					wg.Add(1)
+					go func() {
+						defer wg.Done()
+						its, nx, _ := cont.Harvest(q, st)
+						ts := make([]any, len(its))
+						for i, it := range its {
+							ts[i] = tagOf(it)
+						}
+						b, _ := json.Marshal([]any{ts, nx == nil})
+						results[g] = string(b)
+						if g == 0 {
+							first.Do(func() { items, next, tags = its, nx, ts })
+						}
+					}()
+				}
+				wg.Wait()
+				for _, r := range results[1:] {
+					if r != results[0] {
+						tags = []any{"DIVERGED", results[0], r}
+					}
+				}
 			}
 			out = append(out, []any{tags, next == nil})
 			if step[0].(string) == "h" {
@@ -272,12 +311,15 @@ func genC11(r *rand.Rand, n int, emit func(Op)) {
 			if r.Intn(4) == 0 {
 				kind = "again"
 			}
+			if r.Intn(6) == 0 {
+				kind = "par"
+			}
 			st := 0
 			if r.Intn(5) == 0 {
 				st = r.Intn(4)
 			}
 			script = append(script, []any{kind, r.Intn(7), st})
 		}
-		emit(Op{"op": "splice", "sources": sources, "script": script, "nilempty": r.Intn(2)})
+		emit(Op{"op": "splice", "sources": sources, "script": script, "nilempty": r.Intn(2), "delay_us": pick(r, []int{0, 0, 300, 1000})})
 	}
 }
